@@ -23,13 +23,26 @@ Seeds == { <<60,33,45,45,45,62,45,45,62>>,                         \* <!--->-->
            <<60,63,120,109,108,32,118,63,62,60,63,120,109,108,120,63,62>>,
            <<60,33,45,45,97,45,45,45,62>>, <<60,33,45,45,45,45,97,45,45,62>>,
            <<60,97,47,62,60,47,97,62,60,47,98,62>>,
-           <<239,187,191,60,97,62>> }
+           <<239,187,191,60,97,62>>,
+           \* DOCTYPE with markup nested two levels deep: <!DOCTYPE r [<!-- <!E> -->]><r/>
+           <<60,33,68,79,67,84,89,80,69,32,114,32,91,60,33,45,45,32,60,33,69,62,32,45,45,62,93,62,60,114,47,62>> }
 
 Frags(FragMode) == IF FragMode = "bytes" THEN FragsBytes ELSE FragsMarkup
 
 RECURSIVE Strs(_, _)
 Strs(F, n) == IF n = 0 THEN {<<>>} ELSE LET S == Strs(F, n - 1) IN S \cup {x \o f : x \in S, f \in F}
-InputsOf(FragMode, K) == Strs(Frags(FragMode), K) \cup Seeds
+\* construct-focused input spaces: a fixed opener followed by <= K fragments that matter inside
+\* that construct (reaches nesting / terminator look-alikes the general alphabet cannot within K)
+Focus(FragMode) ==
+    CASE FragMode = "doctype" -> [pre |-> <<60,33,68,79,67,84,89,80,69,32,100>>, fr |-> {<<60>>, <<62>>, <<97>>, <<93>>, <<34>>, <<60,33,45,45>>}]
+      [] FragMode = "comment" -> [pre |-> <<60,33,45,45>>, fr |-> {<<45>>, <<62>>, <<97>>, <<33>>, <<60>>}]
+      [] FragMode = "cdata"   -> [pre |-> <<60,33,91,67,68,65,84,65,91>>, fr |-> {<<93>>, <<62>>, <<97>>, <<91>>, <<60>>}]
+      [] FragMode = "pi"      -> [pre |-> <<60,63>>, fr |-> {<<63>>, <<62>>, <<97>>, <<120,109,108>>, <<32>>}]
+      [] OTHER                -> [pre |-> <<60,97>>, fr |-> {<<34>>, <<39>>, <<62>>, <<47>>, <<61>>, <<32>>, <<97>>}]      \* "tag"
+InputsOf(FragMode, K) ==
+    IF FragMode \in {"doctype", "comment", "cdata", "pi", "tag"}
+    THEN {Focus(FragMode).pre \o x : x \in Strs(Focus(FragMode).fr, K)}
+    ELSE Strs(Frags(FragMode), K) \cup Seeds
 
 Bit(c, key) == IF c[key] THEN 1 ELSE 0
 \* 8 rows covering every pair of switch values at least once, plus defaults
